@@ -1,7 +1,138 @@
-(* C14 - placeholder while the pipeline is brought up; replaced by the real statements. *)
-From IV Require Import Base.Word Model.Flexfec Spec.FlexfecSpec Check.C14Check.
+(* C14 - FlexFEC-03 repair packets recover any single loss in their group.
+   Statements only; proofs are in Proofs/FlexfecProofs.v and Proofs/FlexfecRefute.v.
 
+   Vocabulary.  Model/Flexfec.v: [encode_fec e media n] is FlexEncoder03.EncodeFec on the marshalled
+   media packets (after the two fix: commits), [Ok (Some rs)] = accepted.  [enc_inv e] holds for every
+   encoder state reachable from NewFlexEncoder03 (C14_reachable_states).  Spec/FlexfecSpec.v is the
+   receiver: [parse03] reads a FlexFEC-03 header (k-bit chain, masks -> protected positions [f_pos]),
+   [recovers media d h pos] says: XOR-decoding repair payload d with all packets named by the mask
+   except the one at [pos] returns that packet byte for byte - version bits forced to 2, P/X/CC/M/PT,
+   sequence number (= SN base + pos), timestamp, SSRC, and every byte after the fixed header,
+   at exactly the original length.
+   Scope hypotheses [media_ok]: every packet has at least its 12-byte header and at most 65547 bytes,
+   bytes are bytes, one SSRC per batch.  1 <= n <= 110 FEC packets (n > 110 indexes out of range: C02). *)
+From IV Require Import Base.Word Model.Flexfec Spec.FlexfecSpec Proofs.FlexfecProofs Proofs.FlexfecRefute
+  Check.C14Check.
+
+(* generic XOR recovery: for ANY family of integer strings of any lengths, XOR-folding all but one
+   (zero padded) into the fold of all gives back the missing one *)
+Theorem C14_xor_recover : forall (l1 l2 : list (list Z)) (x : list Z),
+  firstn (length x) (xorl (xor_all (l1 ++ x :: l2)) (xor_all (l1 ++ l2))) = x.
+Proof. exact xor_recover_gen. Qed.
+Print Assumptions C14_xor_recover.
+
+(* which configurations are accepted: exactly 1..109 consecutive packets (any n <= 110 does not crash) *)
+Theorem C14_accepts : forall e media n, enc_inv e -> accepts media n ->
+  exists e' rs, encode_fec e media n = (e', Ok (Some rs)).
+Proof. exact encode_fec_accepts. Qed.
+Print Assumptions C14_accepts.
+
+Theorem C14_accepted_only : forall e media n e' rs,
+  encode_fec e media n = (e', Ok (Some rs)) -> 1 <= zlen media <= 109 /\ valid_batch media = true.
+Proof. exact encode_fec_accepted_only. Qed.
+Print Assumptions C14_accepted_only.
+
+(* MAIN: every repair packet of every accepted batch, from every reachable encoder state, parses as a
+   FlexFEC-03 header, names at least one packet, names only packets of the batch, and recovers each
+   named packet from the others *)
+Theorem C14_recover_single_loss : forall e media n e' rs,
+  enc_inv e -> media_ok media -> 1 <= n <= 110 ->
+  encode_fec e media n = (e', Ok (Some rs)) ->
+  forall r, In r rs ->
+    exists h, parse03 (r_payload r) = Some h /\ f_pos h <> [] /\
+              forall pos, In pos (f_pos h) -> 0 <= pos < zlen media /\ recovers media (r_payload r) h pos.
+Proof. exact recover_single_loss. Qed.
+Print Assumptions C14_recover_single_loss.
+
+(* every media packet is named by some repair packet (the one with FEC index i mod n) *)
+Theorem C14_every_packet_covered : forall e media n e' rs,
+  enc_inv e -> media_ok media -> 1 <= n <= 110 ->
+  encode_fec e media n = (e', Ok (Some rs)) ->
+  forall i, 0 <= i < zlen media -> exists r h, In r rs /\ parse03 (r_payload r) = Some h /\ In i (f_pos h).
+Proof. exact every_packet_covered. Qed.
+Print Assumptions C14_every_packet_covered.
+
+(* the mask names exactly the packets that were combined: the payload is the encoding of precisely
+   the packets at the parsed positions, and these are the indices congruent to one FEC index mod n *)
+Theorem C14_mask_exact : forall e media n e' rs,
+  enc_inv e -> media_ok media -> 1 <= n <= 110 ->
+  encode_fec e media n = (e', Ok (Some rs)) ->
+  forall r, In r rs ->
+    exists h f m1 m2 m3, parse03 (r_payload r) = Some h /\ 0 <= f < n /\
+      f_pos h = covered n (zlen media) f (length media) /\
+      r_payload r = fec_payload (map (fun i => nth (Z.to_nat i) media []) (f_pos h))
+                                (sn_of (hd [] media)) m1 m2 m3.
+Proof. exact mask_exact. Qed.
+Print Assumptions C14_mask_exact.
+
+(* repair headers over any history of calls (accepted, declined, any shapes): FEC payload type and
+   SSRC, sequence numbers counting up by one (mod 2^16) from the counter, across batches *)
+Theorem C14_repair_headers : forall bs e, enc_ok e ->
+  let out := emitted_of (run_batches e bs) in
+  Forall (fun r => r_pt r = e_pt e /\ r_ssrc r = e_ssrc e) out /\
+  map r_sn out = sns_from (e_sn e) (length out).
+Proof. exact repair_headers_history. Qed.
+Print Assumptions C14_repair_headers.
+
+Theorem C14_reachable_states : forall pt ssrc bs,
+  enc_ok (new_encoder pt ssrc) /\ enc_inv (enc_after (new_encoder pt ssrc) bs).
+Proof. intros. split; [apply new_encoder_ok|apply enc_after_inv; exact I]. Qed.
+Print Assumptions C14_reachable_states.
+
+(* coverage reuse: what an encoder returns after any history is what a fresh encoder (same counter)
+   returns; nothing of earlier batches (tables, media packets) leaks into later ones *)
+Theorem C14_batches_independent : forall e media n, enc_inv e ->
+  snd (encode_fec e media n) =
+  snd (encode_fec {| e_sn := e_sn e; e_pt := e_pt e; e_ssrc := e_ssrc e; e_cov := None |} media n).
+Proof. exact batches_independent. Qed.
+Print Assumptions C14_batches_independent.
+
+(* interceptor: for every history of writes, each write passes the written packet on first and
+   unmodified; whatever follows are repair packets, and they are EncodeFec's for exactly the packets
+   written since the previous batch *)
+Theorem C14_media_first_unmodified : forall ws s,
+  Forall2 (fun p r => match r with Ok outs => exists rs, outs = OMedia p :: map ORepair rs | Panic => True end)
+          (firstn (length (i_run s ws)) ws) (i_run s ws).
+Proof. exact icpt_history_media_first. Qed.
+Print Assumptions C14_media_first_unmodified.
+
+Theorem C14_interceptor_batch : forall s p,
+  list_Z_eqb (ssrc_bytes p) (i_ssrc s) = true -> zlen (i_buf s ++ [p]) = i_nm s ->
+  snd (i_write s p) = match snd (encode_fec (i_enc s) (i_buf s ++ [p]) (i_nf s)) with
+                      | Panic => Panic
+                      | Ok None => Ok [OMedia p]
+                      | Ok (Some rs) => Ok (OMedia p :: map ORepair rs)
+                      end.
+Proof. exact icpt_batch. Qed.
+Print Assumptions C14_interceptor_batch.
+
+(* the oracle's recovery test is the Prop-level statement *)
 Theorem C14_oracle_recovers_iff : forall media d h pos,
   recovers_b media d h pos = true <-> recovers media d h pos.
 Proof. exact recovers_b_iff. Qed.
 Print Assumptions C14_oracle_recovers_iff.
+
+(* F16: the code before the fix (batches of 110 accepted) violates the property *)
+Theorem C14_unfixed_110_refuted :
+  zlen media110 = 110 /\ valid_batch media110 = true /\
+  exists r h, first_repair (encode_fec_gen 110 (new_encoder 115 7) media110 1) = Some r /\
+              parse03 (r_payload r) = Some h /\
+              existsb (Z.eqb 109) (f_pos h) = false /\
+              ~ recovers media110 (r_payload r) h 0.
+Proof. exact unfixed_110_refuted. Qed.
+Print Assumptions C14_unfixed_110_refuted.
+
+(* non-vacuity of the hypotheses of the theorems above *)
+Example C14_example_accepted : accepts media5 2 /\ media_ok media5.
+Proof. exact (conj example_accepted example_media_ok). Qed.
+Print Assumptions C14_example_accepted.
+
+Example C14_example_two_repairs :
+  match snd (encode_fec (new_encoder 115 7) media5 2) with
+  | Ok (Some [r0; r1]) =>
+      option_map f_pos (parse03 (r_payload r0)) = Some [0; 2; 4] /\
+      option_map f_pos (parse03 (r_payload r1)) = Some [1; 3] /\ r_sn r0 = 1000 /\ r_sn r1 = 1001
+  | _ => False
+  end.
+Proof. exact example_two_repairs. Qed.
+Print Assumptions C14_example_two_repairs.
